@@ -714,7 +714,8 @@ impl Exec {
                 self.stats.cnt("reach.null_with_ep_state");
             }
         }
-        if self.on(12) && path != "engine" {
+        if self.on(12) && path != "engine" && path != "replica_incremental" && path != "snapshot" {
+            // all spellings of all legal moves: once per position on the server (replicas hold the same positions)
             self.san_all(b, p)?;
         }
         if (self.on(1) || self.on(4)) && p.ep_pawn_beside() {
